@@ -8,12 +8,14 @@ import (
 	"os/exec"
 	"path/filepath"
 	"reflect"
+	"regexp"
 	"strconv"
 	"strings"
 	"sync"
 	"testing"
 
 	"pgregory.net/rapid"
+	"verifharness/model"
 	"verifharness/pbt"
 	"verifharness/pipe"
 )
@@ -184,16 +186,86 @@ func observe(c *pipe.Case, g *pipe.Got, ref []pipe.RefLine, ordered bool) {
 	o.Label(c.Matcher.IgnoreCase, "ignore-case")
 	o.Label(c.Matcher.Posix, "posix")
 	o.Label(c.Matcher.Kind == "default", "default-matcher")
+	observeLiteral(c, ref)
+	// -z with inputs that are not gzip: read from their first byte
+	if c.UseGunzip() {
+		o.Label(true, "-z(no input is gzip)")
+		at := 0
+		for _, in := range c.Inputs {
+			n := len(model.Lines([]byte(in.Content)))
+			if pipe.HasGzipMagic(in.Content) {
+				o.Label(true, "-z:starts-with-gzip-magic,not-gzip")
+				o.Label(len(in.Content) < 10, "-z:gzip-magic,shorter-than-a-header")
+				for k := 0; k < n && at+k < len(ref); k++ {
+					if ref[at+k].Class == pipe.Matched {
+						o.Label(true, "-z:gzip-magic-input-has-a-match")
+						o.Label(k == 0, "-z:gzip-magic-line-1-matched")
+						break
+					}
+				}
+			}
+			at += n
+		}
+	}
+}
+
+// observeLiteral labels the literal / anchored pattern classes and the two
+// decisions they are there for: the anchors accept a line, and the anchors
+// reject a line that contains the literal.
+func observeLiteral(c *pipe.Case, ref []pipe.RefLine) {
+	o := c.Obs
+	if c.Matcher.Kind != "regex" {
+		return
+	}
+	lp := pipe.LiteralInfo(c.Matcher.Pattern)
+	if lp == nil {
+		return
+	}
+	switch {
+	case lp.Left && lp.Right:
+		o.Label(true, "literal-pattern:anchored-both-sides")
+	case lp.Left || lp.Right:
+		o.Label(true, "literal-pattern:anchored-one-side")
+	default:
+		o.Label(true, "literal-pattern:bare")
+	}
+	o.Label(!lp.Grouped, "literal-pattern:group-free")
+	o.Label(lp.Literal != regexp.QuoteMeta(lp.Literal), "literal-pattern:escaped-metacharacters")
+	lit := []byte(lp.Literal)
+	if c.Matcher.IgnoreCase {
+		lit = bytes.ToLower(lit)
+	}
+	for _, l := range ref {
+		line := l.Line
+		if c.Matcher.IgnoreCase {
+			line = bytes.ToLower(line)
+		}
+		if !bytes.Contains(line, lit) {
+			continue
+		}
+		anchored := lp.Left || lp.Right
+		switch {
+		case l.Indices == nil:
+			o.Label(true, "anchors-reject-line-containing-the-literal")
+		case anchored && len(line) == len(lit):
+			o.Label(true, "anchored-literal-matches-line-equal-to-it")
+		case anchored:
+			o.Label(true, "half-anchored-literal-matches-longer-line")
+		default:
+			o.Label(true, "bare-literal-matches")
+		}
+	}
 }
 
 func classify(c pipe.Case) (bool, []string) {
 	o := c.Obs
 	nt := o.Has(">=3-batches-one-source") && o.Has("match-beyond-first-batch") &&
-		(o.Has("non-participating-group") || o.Has("named-group") || o.Has("pool-refill(>1024)") || o.Has("timer-flush-observed") || o.Has("buffer-regrowth-with-following-lines"))
+		(o.Has("non-participating-group") || o.Has("named-group") || o.Has("pool-refill(>1024)") || o.Has("timer-flush-observed") || o.Has("buffer-regrowth-with-following-lines") ||
+			o.Has("anchors-reject-line-containing-the-literal") || o.Has("-z:gzip-magic-input-has-a-match"))
 	return nt, o.All()
 }
 
-const rule = "same pipeline harness as C01 (generated corpora, matcher pools, tunings, latency plans); the consumer holds every Match until the channel closes, memory is churned, then each held match is compared with the sequential reference: source name, 1-based line number, byte-identical line text, capture offsets == leftmost match of an independently compiled regexp (resp. a private dissect instance), and the value of a template exposing {src} {line} {0}..{6} every named group and {@} evaluated through rare's match context vs an independent context; each (source,line) at most once; with one reader and one worker emission order == input order. Non-trivial: >=3 batches from one source, a match beyond the first batch, and one of: non-participating group, named group, >1024 dissect matches (pool refill), timer flush observed, >128KiB line followed by more lines; distinct by case JSON"
+const rule = "same pipeline harness as C01 (generated corpora incl. lines equal to / properly containing the literals of the literal patterns, matcher pools incl. bare, half and fully anchored literals (^ $ \\A \\z (?m), escaped metacharacters, group-free and grouped), tunings, latency plans; file path: -z over non-gzip inputs incl. files that begin with the gzip magic 1f 8b but whose header a gzip reader rejects, which are plain text from their first byte); the consumer holds every Match until the channel closes, memory is churned, then each held match is compared with the sequential reference: source name, 1-based line number, byte-identical line text, capture offsets == leftmost match of an independently compiled regexp (resp. a private dissect instance), and the value of a template exposing {src} {line} {0}..{6} every named group and {@} evaluated through rare's match context vs an independent context; each (source,line) at most once; with one reader and one worker emission order == input order. Non-trivial: >=3 batches from one source, a match beyond the first batch, and one of: non-participating group, named group, >1024 dissect matches (pool refill), timer flush observed, >128KiB line followed by more lines, an anchored literal pattern rejecting a line that contains its literal, a match in a file that starts with the gzip magic without being gzip read under -z; distinct by case JSON"
 
 func genFull(t *rapid.T, c pipe.Case) pipe.Case {
 	if rapid.IntRange(0, 3).Draw(t, "fullExtract") != 0 {
